@@ -128,6 +128,7 @@ func (r *Receiver) SegmentHandlerFunc(w http.ResponseWriter, req *http.Request) 
 	masterSegDur := ch.masterSegDuration
 	masterTimeShift := ch.masterTimeShift
 	masterSeqNrShift := ch.masterSeqNrShift
+	maxNrBufSegs := ch.maxNrBufSegs
 	ch.mu.RUnlock()
 
 	rsd := &recSegData{name: stream.trName,
@@ -167,7 +168,9 @@ func (r *Receiver) SegmentHandlerFunc(w http.ResponseWriter, req *http.Request) 
 			}
 			seg := chunk.Segments[0]
 			moof := seg.Fragments[0].Moof
+			ch.mu.RLock()
 			trd, ok := ch.trDatas[trName]
+			ch.mu.RUnlock()
 			if !ok {
 				return fmt.Errorf("failed to find track data trName: %s", trName)
 			}
@@ -234,8 +237,8 @@ func (r *Receiver) SegmentHandlerFunc(w http.ResponseWriter, req *http.Request) 
 						}
 					}
 				}
-				if ch.maxNrBufSegs > 0 {
-					deleteSegPath := filepath.Join(stream.trDir, fmt.Sprintf("%d%s", rsd.seqNr-ch.maxNrBufSegs, stream.ext))
+				if maxNrBufSegs > 0 {
+					deleteSegPath := filepath.Join(stream.trDir, fmt.Sprintf("%d%s", rsd.seqNr-maxNrBufSegs, stream.ext))
 					if fileExists(deleteSegPath) {
 						log.Debug("Deleting old segment", "path", deleteSegPath)
 						err = os.Remove(deleteSegPath)
@@ -315,12 +318,14 @@ func (r *Receiver) SegmentHandlerFunc(w http.ResponseWriter, req *http.Request) 
 	// Receive raw segments
 	nrRead := 0
 	nrWritten := 0
+	ch.mu.Lock()
 	trD, ok := ch.trDatas[stream.trName]
 	if !ok {
 		log.Debug("New raw track data")
 		trD = &trData{name: stream.trName}
 		ch.trDatas[stream.trName] = trD
 	}
+	ch.mu.Unlock()
 
 	if trD.nrSegsReceived >= ch.receiveNrRaws && (contentLength == 0 || contentLength >= 4096) {
 		log.Debug("Max number of raw segments received. Will not store.", "nrSegsReceived",
